@@ -19,3 +19,15 @@ Definition expand (first last : Z) : outcome (list Z) :=
     ([nlines] = len(strings.Split(content, "\n"))) *)
 Definition console_plain (nlines first last : Z) : list Z :=
   filter (fun i => (1 <=? i) && (i <=? nlines))%bool (zrange first (Z.to_nat (last - first + 1))).
+
+(** internal/diags/problems.go InjectDiagnostics, as far as lines go: [ds] = for every diagnostic the lines of its
+    positions ([diag.Pos]); [nlines] = len(strings.Split(content, "\n")).  `lastLine := slices.Max(lineCoverage(diags))`
+    panics when no diagnostic has a position; the loop over the source lines prints line i iff i <= lastLine and some
+    position lies on it.  Result: the 1-based numbers of the source lines that are printed, in order. *)
+Definition inject_lines (nlines : Z) (ds : list (list Z)) : outcome (list Z) :=
+  match List.concat ds with
+  | [] => Crash "slices.Max: empty list"
+  | x :: r =>
+      let last := fold_left Z.max r x in
+      Ok (filter (fun i => (i <=? last) && existsb (Z.eqb i) (x :: r))%bool (zrange 1 (Z.to_nat nlines)))
+  end.
